@@ -346,6 +346,7 @@ int main(int argc, char **argv) {
   {
     // converse of C14: no claim when a part is not relocatable
     bool parts_ok = vf::expect_reloc<T>::value || (kFlat && CFG_VEC != 1 && CFG_VEC != 2);
+    if (CFG_CMP == 5) parts_ok = false;                          // comparator with a pointer to itself
     if (kFlat && CFG_VEC == 3) parts_ok = false;                 // std::vector is not declared relocatable
     if (kSmallSet && CFG_BACK == 0) parts_ok = false;            // std::set is not relocatable
     if (kSmallSet && !vf::expect_reloc<T>::value) parts_ok = false;  // inline elements
